@@ -26,11 +26,16 @@ func redirectsOf(id string) []string {
 
 // newWorld builds a provider with both routers over a fresh vstore holding the key registry and the clients.
 func newWorld(mut func(*op.Config)) (*opdrv.World, map[string]*vclient.Client) {
+	return newWorldFn(mut, nil)
+}
+
+// newWorldFn is newWorld with an issuer strategy (nil = the static default issuer).
+func newWorldFn(mut func(*op.Config), issuerFn func(bool) (op.IssuerFromRequest, error)) (*opdrv.World, map[string]*vclient.Client) {
 	cfg := opdrv.DefaultConfig()
 	if mut != nil {
 		mut(&cfg)
 	}
-	w := opdrv.MustWorld(opdrv.Options{Config: cfg, Caps: vstore.Full})
+	w := opdrv.MustWorld(opdrv.Options{Config: cfg, Caps: vstore.Full, IssuerFn: issuerFn})
 	cl := map[string]*vclient.Client{}
 	add := func(id, secret string, auth oidc.AuthMethod) {
 		c := vclient.Confidential(id, secret, redirectsOf(id)...)
